@@ -2329,7 +2329,7 @@ bool NifFile::RenameDuplicateShapes() {
 				if (duped) {
 					std::string dup = "_" + std::to_string(dupCount);
 
-					while (countDupes(node, shapeName + dup) > 1) {
+					while (countDupes(node, shapeName + dup) > 0) {
 						dupCount++;
 						dup = "_" + std::to_string(dupCount);
 					}
